@@ -6,6 +6,7 @@
 -/
 import JS.Proofs.Inert
 import JS.Proofs.InertNested
+import JS.Proofs.InertRefs
 namespace JS.Props.C10
 open JS
 
@@ -273,5 +274,341 @@ example :
   decide +kernel
 
 end NonVacuous
+
+/-! ### Insertion at any subschema position, in schemas WITH references
+
+A `$ref` is resolved against the resolver state, so the run on `s'` (= `s` with foreign keys
+inserted) starts from a state that holds the correspondingly modified documents:
+`Spec.InsState d st st'` — same scope stack, same memo capacity, `cache_remote`, retrieval clock and
+log; store and memo hold `Ins`-related documents under the same keys.  Whatever is retrieved through
+`env.fetch` is the same for both runs.
+
+The guard is the property's own proviso ("foreign keywords that no reference leads into"):
+`Spec.Lands d env G st.store st'.store` — every reference string of `G`, joined with any scope, that
+addresses a document of the two stores resolves in both documents to `Ins`-related values, or in
+neither.  `G` is any set of strings containing the reference strings that can be met
+(`Spec.RefsIn G s'`, `Spec.Covered G st'`, `Spec.WorldCovered env G`); the canonical choice is
+`Spec.refsMet env s' st'` (`nested_unknown_inert_refs_met`).  Without the guard the statement is
+false (`nested_unknown_inert_refs_needs_guard`).
+
+Conclusion: the same errors up to `Spec.eraseDeep`, the same way of stopping, final states related
+in the same way (with the guard and the coverage again, so that the statement composes over a
+history of runs). -/
+
+theorem nested_unknown_inert_refs (d : Draft) (fc : Option FormatChecker) (env : Env) (impl : FmtImpl)
+    (G : Str → Prop) (s s' : Json) (h : Spec.Ins d s s') (st st' : RState)
+    (hst : Spec.InsState d st st')
+    (hs' : Spec.RefsIn G s') (hcov : Spec.Covered G st') (hworld : Spec.WorldCovered env G)
+    (hguard : Spec.Lands d env G st.store st'.store)
+    (fuel : Nat) (inst : Json) (b : Option Nat) :
+    ((eval env impl (d.cfg fc) fuel inst s' b st').errs.map Spec.eraseDeep
+        = (eval env impl (d.cfg fc) fuel inst s b st).errs.map Spec.eraseDeep)
+    ∧ (eval env impl (d.cfg fc) fuel inst s' b st').stop = (eval env impl (d.cfg fc) fuel inst s b st).stop
+    ∧ Spec.InsState d (eval env impl (d.cfg fc) fuel inst s b st).st (eval env impl (d.cfg fc) fuel inst s' b st').st
+    ∧ Spec.Covered G (eval env impl (d.cfg fc) fuel inst s' b st').st
+    ∧ Spec.Lands d env G (eval env impl (d.cfg fc) fuel inst s b st).st.store
+        (eval env impl (d.cfg fc) fuel inst s' b st').st.store := by
+  have hsim := NestedRefs.eval_recRelR d env G hworld impl fc fuel inst s s' ⟨h, hs'⟩ b st st' ⟨hst, hcov, hguard⟩
+  exact ⟨hsim.1.symm, hsim.2.1.symm, hsim.2.2.ins, hsim.2.2.cov, hsim.2.2.lands⟩
+
+/-- … with the canonical `G`: the reference strings occurring in `s'`, in the documents the primed
+    state holds, and in retrievable documents -/
+theorem nested_unknown_inert_refs_met (d : Draft) (fc : Option FormatChecker) (env : Env) (impl : FmtImpl)
+    (s s' : Json) (h : Spec.Ins d s s') (st st' : RState) (hst : Spec.InsState d st st')
+    (hguard : Spec.Lands d env (Spec.refsMet env s' st') st.store st'.store)
+    (fuel : Nat) (inst : Json) (b : Option Nat) :
+    ((eval env impl (d.cfg fc) fuel inst s' b st').errs.map Spec.eraseDeep
+        = (eval env impl (d.cfg fc) fuel inst s b st).errs.map Spec.eraseDeep)
+    ∧ (eval env impl (d.cfg fc) fuel inst s' b st').stop = (eval env impl (d.cfg fc) fuel inst s b st).stop
+    ∧ Spec.InsState d (eval env impl (d.cfg fc) fuel inst s b st).st (eval env impl (d.cfg fc) fuel inst s' b st').st := by
+  have key := nested_unknown_inert_refs d fc env impl (Spec.refsMet env s' st') s s' h st st' hst
+    (fun r hr => .inl hr)
+    ⟨fun kv hkv r hr => .inr (.inl ⟨kv, hkv, hr⟩), fun kv hkv r hr => .inr (.inr (.inl ⟨kv, hkv, hr⟩))⟩
+    (fun n u doc hf r hr => .inr (.inr (.inr ⟨n, u, doc, hf, hr⟩)))
+    hguard fuel inst b
+  exact ⟨key.1, key.2.1, key.2.2.1⟩
+
+/-- … in particular the verdict -/
+theorem nested_unknown_inert_refs_verdict (d : Draft) (fc : Option FormatChecker) (env : Env) (impl : FmtImpl)
+    (G : Str → Prop) (s s' : Json) (h : Spec.Ins d s s') (st st' : RState)
+    (hst : Spec.InsState d st st')
+    (hs' : Spec.RefsIn G s') (hcov : Spec.Covered G st') (hworld : Spec.WorldCovered env G)
+    (hguard : Spec.Lands d env G st.store st'.store)
+    (fuel : Nat) (inst : Json) :
+    (isValid (eval env impl (d.cfg fc) fuel inst s') st').1 = (isValid (eval env impl (d.cfg fc) fuel inst s) st).1 := by
+  have key := nested_unknown_inert_refs d fc env impl G s s' h st st' hst hs' hcov hworld hguard fuel inst (some 1)
+  unfold isValid
+  revert key
+  generalize eval env impl (d.cfg fc) fuel inst s' (some 1) st' = o'
+  generalize eval env impl (d.cfg fc) fuel inst s (some 1) st = o
+  rintro ⟨he, hs, _⟩
+  obtain ⟨es', stop', st1'⟩ := o'
+  obtain ⟨es, stop, st1⟩ := o
+  dsimp only at he hs
+  subst hs
+  cases es' with
+  | nil =>
+    cases es with
+    | nil => cases stop' <;> rfl
+    | cons e es => simp at he
+  | cons e' es' =>
+    cases es with
+    | nil => simp at he
+    | cons e es => rfl
+
+/-! #### the guard is needed, and the statement is not vacuous
+
+A world with one document, the root schema under the base URI `""`: `urljoin` returns the
+reference, `urldefrag` splits at `#`, `urinorm` is the identity, every retrieval fails. -/
+
+namespace Refs
+open Spec
+
+def env : Env :=
+  ⟨fun _ _ => none, fun _ r => some r,
+   fun u => some (u.takeWhile (· != '#'), (u.dropWhile (· != '#')).drop 1),
+   fun u => some u, fun _ => none, fun _ => none, fun _ => none,
+   fun _ _ => some none, fun _ _ => none⟩
+
+/-- a fresh resolver for the root document `doc` under the base URI `""` -/
+def stOf (doc : Json) : RState :=
+  { scopes := [[]], store := [([], doc)], memo := [], memoCap := none, cacheRemote := true, clock := 0,
+    fetchLog := [] }
+
+theorem world (G : Str → Prop) : WorldCovered env G := fun _ _ _ h => nomatch h
+
+theorem insState_stOf {d : Draft} {doc doc' : Json} (h : Ins d doc doc') : InsState d (stOf doc) (stOf doc') :=
+  ⟨rfl, .cons _ _ _ h .nil, .nil, rfl, rfl, rfl, rfl⟩
+
+theorem covered_stOf {G : Str → Prop} {doc' : Json} (h : RefsIn G doc') : Covered G (stOf doc') where
+  store := fun kv hkv => by
+    cases hkv with
+    | head => exact h
+    | tail _ h' => cases h'
+  memo := fun _ h' => nomatch h'
+
+/-! the counterexample: `{"properties": {"a": {"$ref": "#/x-foo"}}}` and the same schema with the
+    root member `"x-foo": {"type": "string"}` inserted.  The reference leads INTO the inserted member:
+    the unprimed run ends with `RefResolutionError`, the primed run reports a `type` error. -/
+
+def cexS : Json :=
+  .obj [(k "properties", .obj [(k "a", .obj [(k "$ref", .str (k "#/x-foo"))])])]
+
+def cexS' : Json :=
+  .obj [(k "x-foo", .obj [(k "type", .str (k "string"))]),
+        (k "properties", .obj [(k "a", .obj [(k "$ref", .str (k "#/x-foo"))])])]
+
+theorem xfoo_inert : Inert .d7 (k "x-foo") := by
+  unfold Inert; decide +kernel
+
+theorem cex_ins : Ins .d7 cexS cexS' :=
+  .obj <| .insert (k "x-foo") _ xfoo_inert <| .keep (k "properties") _ _ (.same _ _) .nil
+
+def cexInst : Json := .obj [(k "a", .num (.int 1))]
+
+theorem cex_refs : RefsIn (fun r => r = k "#/x-foo") cexS' := by
+  have : refsOf cexS' = [k "#/x-foo"] := by decide +kernel
+  intro r hr
+  rw [this] at hr
+  exact List.mem_singleton.1 hr
+
+theorem cex_differ :
+    (eval env RefCex.impl (Draft.d7.cfg none) 3 cexInst cexS' none (stOf cexS')).stop.isDone
+      ≠ (eval env RefCex.impl (Draft.d7.cfg none) 3 cexInst cexS none (stOf cexS)).stop.isDone := by
+  decide +kernel
+
+end Refs
+
+/-- **the guard cannot be dropped**: with every hypothesis of `nested_unknown_inert_refs` except
+    `hguard`, already the way of stopping may differ (a reference into an inserted member) -/
+theorem nested_unknown_inert_refs_needs_guard :
+    ¬ (∀ (d : Draft) (fc : Option FormatChecker) (env : Env) (impl : FmtImpl)
+        (G : Str → Prop) (s s' : Json) (_h : Spec.Ins d s s') (st st' : RState)
+        (_hst : Spec.InsState d st st')
+        (_hs' : Spec.RefsIn G s') (_hcov : Spec.Covered G st') (_hworld : Spec.WorldCovered env G)
+        (fuel : Nat) (inst : Json) (b : Option Nat),
+        (eval env impl (d.cfg fc) fuel inst s' b st').stop = (eval env impl (d.cfg fc) fuel inst s b st).stop) := by
+  intro hall
+  have := hall .d7 none Refs.env RefCex.impl (fun r => r = Spec.k "#/x-foo") Refs.cexS Refs.cexS' Refs.cex_ins
+    (Refs.stOf Refs.cexS) (Refs.stOf Refs.cexS') (Refs.insState_stOf Refs.cex_ins) Refs.cex_refs
+    (Refs.covered_stOf Refs.cex_refs) (Refs.world _) 3 Refs.cexInst none
+  exact Refs.cex_differ (congrArg Stop.isDone this)
+
+/-! A weaker guard — "no run ends with `RefResolutionError`" (every reference resolves, on both
+    sides) — is NOT enough: a pointer may stop at a position that is not a schema position of the
+    insertion.  `{"properties": {"const": {}}, "allOf": [{"$ref": "#/properties"}]}` and the same schema
+    with `"x-foo": 1` inserted into the property subschema named `const`: the reference makes the
+    `properties` MAP a schema, whose keyword `const` has the (modified) property subschema as its
+    value.  `{}` is valid for the first schema and violates `const` in the second. -/
+
+namespace Refs
+open Spec
+
+def roleS : Json :=
+  .obj [(k "properties", .obj [(k "const", .obj [])]),
+        (k "allOf", .arr [.obj [(k "$ref", .str (k "#/properties"))]])]
+
+def roleS' : Json :=
+  .obj [(k "properties", .obj [(k "const", .obj [(k "x-foo", .num (.int 1))])]),
+        (k "allOf", .arr [.obj [(k "$ref", .str (k "#/properties"))]])]
+
+theorem role_ins : Ins .d7 roleS roleS' :=
+  .obj <|
+    .keep (k "properties") _ _
+      (.schemaMap _ _ _ (by decide +kernel) <|
+        .cons (k "const") _ _ (.obj <| .insert (k "x-foo") _ xfoo_inert .nil) .nil) <|
+    .keep (k "allOf") _ _ (.same _ _) .nil
+
+theorem role_refs : RefsIn (fun r => r = k "#/properties") roleS' := by
+  have : refsOf roleS' = [k "#/properties"] := by decide +kernel
+  intro r hr
+  rw [this] at hr
+  exact List.mem_singleton.1 hr
+
+theorem role_runs :
+    (eval env RefCex.impl (Draft.d7.cfg none) 4 (.obj []) roleS none (stOf roleS)).stop.isDone = true
+    ∧ (eval env RefCex.impl (Draft.d7.cfg none) 4 (.obj []) roleS' none (stOf roleS')).stop.isDone = true
+    ∧ (eval env RefCex.impl (Draft.d7.cfg none) 4 (.obj []) roleS none (stOf roleS)).errs.length = 0
+    ∧ (eval env RefCex.impl (Draft.d7.cfg none) 4 (.obj []) roleS' none (stOf roleS')).errs.length = 1 := by
+  decide +kernel
+
+end Refs
+
+/-- "every reference resolves, in both runs" does not make insertions inert: the position a
+    reference lands on must be one that the insertion relates as a SCHEMA (`Spec.Lands`) -/
+theorem nested_unknown_inert_refs_resolving_not_enough :
+    ¬ (∀ (d : Draft) (fc : Option FormatChecker) (env : Env) (impl : FmtImpl)
+        (G : Str → Prop) (s s' : Json) (_h : Spec.Ins d s s') (st st' : RState)
+        (_hst : Spec.InsState d st st')
+        (_hs' : Spec.RefsIn G s') (_hcov : Spec.Covered G st') (_hworld : Spec.WorldCovered env G)
+        (fuel : Nat) (inst : Json) (b : Option Nat),
+        (eval env impl (d.cfg fc) fuel inst s b st).stop.isDone = true →
+        (eval env impl (d.cfg fc) fuel inst s' b st').stop.isDone = true →
+        (eval env impl (d.cfg fc) fuel inst s' b st').errs.length = (eval env impl (d.cfg fc) fuel inst s b st).errs.length) := by
+  intro hall
+  have := hall .d7 none Refs.env RefCex.impl (fun r => r = Spec.k "#/properties") Refs.roleS Refs.roleS' Refs.role_ins
+    (Refs.stOf Refs.roleS) (Refs.stOf Refs.roleS') (Refs.insState_stOf Refs.role_ins) Refs.role_refs
+    (Refs.covered_stOf Refs.role_refs) (Refs.world _) 4 (.obj []) none Refs.role_runs.1 Refs.role_runs.2.1
+  rw [Refs.role_runs.2.2.1, Refs.role_runs.2.2.2] at this
+  cases this
+
+/-! the statement is not vacuous: Draft 7,
+    `{"definitions": {"pos": {"type": "integer", "minimum": 0}}, "properties": {"n": {"$ref": "#/definitions/pos"}}}`
+    and the same schema with three foreign keys inserted: the Draft 3/4 spelling `id` of the id keyword
+    and `x-note` at the top, `x-note` next to the `$ref`. -/
+
+namespace Refs
+open Spec
+
+def pos : Json := .obj [(k "type", .str (k "integer")), (k "minimum", .num (.int 0))]
+
+def nvS : Json :=
+  .obj [(k "definitions", .obj [(k "pos", pos)]),
+        (k "properties", .obj [(k "n", .obj [(k "$ref", .str (k "#/definitions/pos"))])])]
+
+def nvS' : Json :=
+  .obj [(k "id", .str (k "urn:elsewhere")), (k "definitions", .obj [(k "pos", pos)]), (k "x-note", .num (.int 1)),
+        (k "properties", .obj [(k "n", .obj [(k "$ref", .str (k "#/definitions/pos")), (k "x-note", .bool true)])])]
+
+theorem id_inert_d7 : Inert .d7 (k "id") := by
+  unfold Inert; decide +kernel
+
+theorem nv_ins : Ins .d7 nvS nvS' :=
+  .obj <|
+    .insert (k "id") _ id_inert_d7 <|
+    .keep (k "definitions") _ _ (.same _ _) <|
+    .insert (k "x-note") _ NonVacuous.xnote_inert <|
+    .keep (k "properties") _ _
+      (.schemaMap _ _ _ (by decide +kernel) <|
+        .cons (k "n") _ _
+          (.obj <| .keep (k "$ref") _ _ (.same _ _) <| .insert (k "x-note") _ NonVacuous.xnote_inert .nil)
+          .nil)
+      .nil
+
+/-- the reference strings that can be met -/
+def nvG (r : Str) : Prop := r = k "#/definitions/pos"
+
+theorem nv_refs : RefsIn nvG nvS' := by
+  have : refsOf nvS' = [k "#/definitions/pos"] := by decide +kernel
+  intro r hr
+  rw [this] at hr
+  exact List.mem_singleton.1 hr
+
+/-- the one reference lands, in both documents, on the same definition -/
+theorem nv_lands : Lands .d7 env nvG (stOf nvS).store (stOf nvS').store := by
+  intro r hr scope url u frag key doc doc' hj hdf hn hl hl'
+  cases hr
+  cases hj
+  have e : env.urldefrag (k "#/definitions/pos") = some ([], k "/definitions/pos") := by decide +kernel
+  rw [e] at hdf
+  cases hdf
+  cases hn
+  have e1 : Json.lookup [] (stOf nvS).store = some nvS := rfl
+  have e2 : Json.lookup [] (stOf nvS').store = some nvS' := rfl
+  rw [e1] at hl
+  rw [e2] at hl'
+  cases hl
+  cases hl'
+  have f1 : resolveFragment nvS (k "/definitions/pos") = some pos := by decide +kernel
+  have f2 : resolveFragment nvS' (k "/definitions/pos") = some pos := by decide +kernel
+  rw [f1, f2]
+  exact Ins.same _
+
+example : nvS ≠ nvS' := by decide +kernel
+
+/-- all hypotheses hold: the two schemas evaluate alike on every instance -/
+example (fc : Option FormatChecker) (impl : FmtImpl) (fuel : Nat) (inst : Json) (b : Option Nat) :
+    ((eval env impl (Draft.d7.cfg fc) fuel inst nvS' b (stOf nvS')).errs.map eraseDeep
+        = (eval env impl (Draft.d7.cfg fc) fuel inst nvS b (stOf nvS)).errs.map eraseDeep)
+    ∧ (eval env impl (Draft.d7.cfg fc) fuel inst nvS' b (stOf nvS')).stop
+        = (eval env impl (Draft.d7.cfg fc) fuel inst nvS b (stOf nvS)).stop :=
+  have key := nested_unknown_inert_refs .d7 fc env impl nvG nvS nvS' nv_ins (stOf nvS) (stOf nvS')
+    (insState_stOf nv_ins) nv_refs (covered_stOf nv_refs) (world _) nv_lands fuel inst b
+  ⟨key.1, key.2.1⟩
+
+/-- and the reference is followed: `{"n": -1}` violates `minimum` of the referenced definition, on
+    both sides (one error each); `{"n": 1}` is valid -/
+example :
+    (eval env RefCex.impl (Draft.d7.cfg none) 4 (.obj [(k "n", .num (.int (-1)))]) nvS none (stOf nvS)).errs.length = 1
+    ∧ (eval env RefCex.impl (Draft.d7.cfg none) 4 (.obj [(k "n", .num (.int (-1)))]) nvS' none (stOf nvS')).errs.length = 1
+    ∧ (eval env RefCex.impl (Draft.d7.cfg none) 4 (.obj [(k "n", .num (.int 1))]) nvS' none (stOf nvS')).errs.length = 0
+    ∧ (eval env RefCex.impl (Draft.d7.cfg none) 4 (.obj [(k "n", .num (.int 1))]) nvS' none (stOf nvS')).stop.isDone = true := by
+  decide +kernel
+
+end Refs
+
+/-! #### a way to establish the guard: pointer navigation commutes with insertion
+
+Insertion only adds members and leaves array positions alone, so every fragment that resolves in
+the unprimed document resolves in the primed one, to the value at the corresponding position
+(`Spec.PosRel`: a schema with insertions, an array of such, or a map of such) — provided the primed
+document has no duplicate keys (which Python dicts never have, but the model's association lists
+may: an inserted member could shadow a kept foreign member of the same name).  When the position
+reached is a schema position (`Spec.PosRel.ins`, e.g. anything under a `definitions` member, which
+insertion leaves alone, or a subschema proper), this is what `Spec.Lands` asks for. -/
+
+theorem pointer_commutes_with_insertion (d : Draft) (doc doc' : Json) (h : Spec.Ins d doc doc')
+    (hnd : Spec.NoDupKeys doc') (frag : Str) (t : Json) (hr : resolveFragment doc frag = some t) :
+    ∃ t', resolveFragment doc' frag = some t' ∧ Spec.PosRel d t t' :=
+  NestedRefs.resolveFragment_posRel h hnd frag hr
+
+/-- … hence the guard's requirement for a fragment that resolves in the unprimed document to a
+    position that insertion relates as a schema -/
+theorem landRel_of_resolves (d : Draft) (doc doc' : Json) (h : Spec.Ins d doc doc')
+    (hnd : Spec.NoDupKeys doc') (frag : Str) (t : Json) (hr : resolveFragment doc frag = some t)
+    (hrole : ∀ t', Spec.PosRel d t t' → Spec.Ins d t t') :
+    Spec.LandRel d (resolveFragment doc frag) (resolveFragment doc' frag) := by
+  obtain ⟨t', hr', hp⟩ := pointer_commutes_with_insertion d doc doc' h hnd frag t hr
+  rw [hr, hr']
+  exact hrole t' hp
+
+/-- without the no-duplicate-keys hypothesis an inserted member can shadow a kept foreign member:
+    `{"x-foo": false}` and `{"x-foo": true, "x-foo": false}` -/
+example :
+    Spec.Ins .d7 (.obj [(Spec.k "x-foo", .bool false)]) (.obj [(Spec.k "x-foo", .bool true), (Spec.k "x-foo", .bool false)])
+    ∧ resolveFragment (.obj [(Spec.k "x-foo", .bool false)]) (Spec.k "/x-foo") = some (.bool false)
+    ∧ resolveFragment (.obj [(Spec.k "x-foo", .bool true), (Spec.k "x-foo", .bool false)]) (Spec.k "/x-foo")
+        = some (.bool true) :=
+  ⟨.obj (.insert _ _ Refs.xfoo_inert (.keep _ _ _ (.same _ _) .nil)), by decide +kernel, by decide +kernel⟩
 
 end JS.Props.C10
